@@ -226,10 +226,15 @@ var concModel = porcupine.Model{
 	DescribeState:     func(s interface{}) string { return "{" + s.(string) + "}" },
 }
 
+var concRounds int
+
 func c05Concurrent(r *gen.Rng, tier string, shard, nshard int) {
 	rounds, maxG, perG := 150, 4, 7
 	if tier == "thorough" {
 		rounds, maxG, perG = 4000, 16, 6
+	}
+	if concRounds > 0 {
+		rounds = concRounds
 	}
 	// filters and names are both used as stored topics, queries use them in both roles
 	stored := []string{"a", "a/b", "a/+", "a/#", "+/b", "#", "b"}
